@@ -396,3 +396,86 @@ theorem evalPure_shape (W : World D S F) (parabola : Bool) (d : D) (s : S) (q : 
 end shapes
 
 end C06
+
+/-! ### cached PDF values are constants of a trial
+
+A block of PDF values that sits in a pd cache under the current state id is never changed by a later
+evaluation (it can only be joined by further blocks).  Implementation side: the byte snapshots of
+`MultiDimGridPDF._cache_pd` around every evaluate (whoever is handed the cache array must not write
+into it). -/
+
+namespace C06
+open Cache
+
+variable {D S F : Type}
+
+/-- the blocks valid under `sid` in `c` are still there in `c'` -/
+def PdKeeps (sid : Int) (c c' : PdCache F) : Prop :=
+  c.sid = some sid → c'.sid = some sid ∧ ∀ k v, c.blocks k = some v → c'.blocks k = some v
+
+theorem pdKeeps_refl (sid : Int) (c : PdCache F) : PdKeeps sid c c := fun h => ⟨h, fun _ _ hv => hv⟩
+
+theorem pdKeeps_trans {sid : Int} {a b c : PdCache F} (h1 : PdKeeps sid a b) (h2 : PdKeeps sid b c) :
+    PdKeeps sid a c := fun h =>
+  ⟨(h2 (h1 h).1).1, fun k v hv => (h2 (h1 h).1).2 k v ((h1 h).2 k v hv)⟩
+
+theorem pdGet_keeps (cp : Bool) (sid : Int) (val : List F) (c : PdCache F) (k : Nat) :
+    PdKeeps sid c (pdGet cp sid val c k).2.1 := by
+  intro hs
+  unfold pdGet
+  by_cases hcp : (!cp) = true
+  · simp only [hcp, ↓reduceIte]
+    exact ⟨hs, fun _ _ hv => hv⟩
+  · simp only [hcp, hs, ↓reduceIte]
+    cases hb : c.blocks k with
+    | some v0 => exact ⟨hs, fun _ _ hv => hv⟩
+    | none =>
+      refine ⟨rfl, fun j v hv => ?_⟩
+      by_cases hj : j = k
+      · subst hj; rw [hb] at hv; cases hv
+      · simpa [hj] using hv
+
+section
+variable [DecidableEq F]
+
+theorem evalPdfs_keeps (W : World D S F) (cp : Bool) (d : D) (s : S) (sid : Int) :
+    ∀ (gs : List F) (pdc : F → PdCache F) (k : Nat) (g : F),
+      PdKeeps sid (pdc g) ((evalPdfs W cp d s sid pdc k gs).2.1 g) := by
+  intro gs
+  induction gs with
+  | nil => intro pdc k g; exact pdKeeps_refl _ _
+  | cons g0 gs ih =>
+    intro pdc k g
+    simp only [evalPdfs]
+    refine pdKeeps_trans ?_ (ih _ (k + 1) g)
+    by_cases hg : g = g0
+    · subst hg; simpa using pdGet_keeps cp sid _ (pdc g) k
+    · simpa [hg] using pdKeeps_refl sid (pdc g)
+
+variable [Add F] [Sub F] [Mul F] [Div F] [LT F] [DecidableLT F] [OfScientific F]
+
+theorem interpMiss_keeps (W : World D S F) (cfg : Cfg) (st : St D S F) (q : Query F) (g : F) :
+    PdKeeps st.sid (st.pdc g) ((interpMiss W cfg st q).2.2.1 g) := by
+  unfold interpMiss
+  split
+  · exact pdKeeps_trans (pdKeeps_trans (evalPdfs_keeps W _ _ _ _ _ _ 0 g) (evalPdfs_keeps W _ _ _ _ _ _ 0 g))
+      (evalPdfs_keeps W _ _ _ _ _ _ 0 g)
+  · exact pdKeeps_trans (evalPdfs_keeps W _ _ _ _ _ _ 0 g) (evalPdfs_keeps W _ _ _ _ _ _ 0 g)
+
+/-- **an evaluation never changes a PDF value that is validly cached** (signal grid PDFs and the
+background PDF), whatever the state — no invariant needed -/
+theorem evalC_keeps (W : World D S F) (hit : F → F → Bool) (cfg : Cfg) (st : St D S F) (q : Query F) :
+    (∀ g, PdKeeps st.sid (st.pdc g) ((evalC W hit cfg st q).1.pdc g)) ∧
+    PdKeeps st.sid st.bkgc (evalC W hit cfg st q).1.bkgc ∧ (evalC W hit cfg st q).1.sid = st.sid := by
+  refine ⟨fun g => ?_, ?_, rfl⟩
+  · simp only [evalC, interpCall]
+    split
+    · split
+      · exact pdKeeps_refl _ _
+      · exact interpMiss_keeps W cfg st q g
+    · exact interpMiss_keeps W cfg st q g
+  · simpa [evalC] using pdGet_keeps cfg.cacheBkg st.sid (W.bkg st.data st.src) st.bkgc 0
+
+end
+
+end C06
